@@ -17,7 +17,7 @@ pub static SCENARIO: Scenario = Scenario {
     rule: "corrupt-in-transit: an authentic token of any protocol/layer (message <= 300 bytes) is hit by a channel fault before delivery to its otherwise matching verifier (core try_decrypt/try_verify, GenericParser, PasetoParser, the parsers with logging validators registered and a freshly built twin). Per sampled token one or more fault families are enumerated COMPLETELY: all single-bit flips of the decoded payload; all single-bit flips of the decoded footer; every character position substituted by {next base64url symbol, 'A', '.', '=', a non-ASCII char}; every proper prefix; suffix extensions by 1..4 symbols / one decoded byte; all shifts of the body/tail and payload/footer boundaries by +-1..4; sampled: splices with a second authentic token of the same protocol and key (nonce | body | tail | footer), non-canonical base64 (trailing bits, '=' padding), random multi-byte edits, inserted/deleted characters, footer edits, ECDSA s-negation (v3.public). Tolerated exactly as the property states: trailing '.' added/removed and signature-only re-encoding of public tokens, which may be accepted only with identical content. Distinct = distinct abstract traces; every run is non-trivial (it contains faults).",
     runs: |t| match t {
         Tier::Quick => 2_400,
-        Tier::Thorough => 30_000,
+        Tier::Thorough => 150_000,
     },
     gen,
     judge: |run, obs| oracle::judge("C03", run, obs),
